@@ -316,6 +316,58 @@ example : Matches (exHistory.foldl Corpus.apply ([] : Corpus Nat)) { terms := [9
   · simp only [Bool.false_eq_true, if_false]; exact ⟨9, by decide, by decide⟩
   · intro f hf; cases hf; decide
 
+theorem exInsert_perm (r : Res Nat) (l : List (Res Nat)) : (exInsert r l).Perm (r :: l) := by
+  induction l with
+  | nil => exact List.Perm.refl _
+  | cons x l ih =>
+    unfold exInsert
+    split
+    · exact List.Perm.refl _
+    · exact (List.Perm.cons x ih).trans (List.Perm.swap r x l)
+
+theorem exSort_perm (l : List (Res Nat)) : (exSort l).Perm l := by
+  induction l with
+  | nil => exact List.Perm.refl _
+  | cons a l ih => exact (exInsert_perm a _).trans (List.Perm.cons a ih)
+
+theorem exSort_sorted (l : List (Res Nat)) : (exSort l).Pairwise (fun a b => b.score ≤ a.score) := by
+  induction l with
+  | nil => simp [exSort]
+  | cons a l ih =>
+    show (exInsert a (exSort l)).Pairwise _
+    generalize exSort l = s at ih
+    induction s with
+    | nil => simp [exInsert]
+    | cons x s ihs =>
+      unfold exInsert
+      rw [List.pairwise_cons] at ih
+      split
+      · rename_i hxa
+        rw [List.pairwise_cons]
+        refine ⟨?_, List.pairwise_cons.mpr ih⟩
+        intro y hy
+        rcases List.mem_cons.mp hy with rfl | hy
+        · exact hxa
+        · exact Nat.le_trans (ih.1 y hy) hxa
+      · rename_i hxa
+        rw [List.pairwise_cons]
+        refine ⟨?_, ihs ih.2⟩
+        intro y hy
+        rcases List.mem_cons.mp ((exInsert_perm a s).mem_iff.mp hy) with rfl | hy
+        · exact Nat.le_of_lt (Nat.lt_of_not_le hxa)
+        · exact ih.1 y hy
+
+/-- every hypothesis of `C05_match` at once: a commutative associative `add`, a sorter that returns
+a sorted permutation, an index reached through a history, a term order per document -/
+example : ∃ set rs,
+    searchWith (fun _ r => scoreDoc exOps (exHistory.foldl applyBatch ({} : Index Nat)) (dedup [9, 7, 9]) r) exOps.scale exSort
+      (exHistory.foldl applyBatch ({} : Index Nat)) { terms := [9, 7, 9], all := false, filter := none, limit := 1 } 2 = some (set, rs) ∧
+    rs.length ≤ 1 := by
+  obtain ⟨set, rs, h, _, _, _, hl, _⟩ := C05_match exOps (· ≤ ·) Nat.add_comm Nat.add_assoc exSort exSort_perm exSort_sorted
+    (C05_history exHistory) { terms := [9, 7, 9], all := false, filter := none, limit := 1 } 2
+    (fun _ => dedup [9, 7, 9]) (fun _ => List.Perm.refl _)
+  exact ⟨set, rs, h, hl⟩
+
 /-- distinct ids: the hypothesis of `C05_order_distinct` holds for a permuted batch -/
 example : ([(2, [7]), (3, [8])] : List (Doc Nat)).Perm [(3, [8]), (2, [7])] ∧
     (([(3, [8]), (2, [7])] : List (Doc Nat)).map (·.1)).Nodup := by
